@@ -38,6 +38,7 @@ Say(class, why) == PrintT("@@VERDICT|" \o class \o "|" \o why \o "|" \o ToString
 \* C19: must a configuration value of this class be honoured?  v is a word <<hi, lo>> or a plain length
 Honoured(e) ==
     CASE e.cfg = "chunk_size" -> e.v # <<0, 0>> /\ e.v[1] < 32768
+      [] e.cfg = "chunk_size_wide" -> FALSE      \* hi * 2^32 + v with hi >= 1: above 2^31 - 1 whatever the low half is
       [] e.cfg = "payload_len" -> e.n <= 16777215
       [] e.cfg = "string_len" -> e.n <= 65535
       [] e.cfg = "name_len" -> e.n >= 1 /\ e.n <= 65535
